@@ -51,12 +51,12 @@ func c14Cases(tier string) int {
 
 func init() {
 	Register(&Property{
-		ID:    "C14",
-		Title: "Broadcast helpers implement ONNX multi- and unidirectional broadcasting",
-		Cases: c14Cases,
-		Run:   c14Run,
-		Floor: func(tier string) int { return 50000 },
-		Rule: "bounded-exhaustive: every ordered pair of shapes of rank 0..4 with extents 1..4 (341^2 = 116281 pairs) through ops.MultidirectionalBroadcast and ops.UnidirectionalBroadcast, operands unique-valued so each output element identifies its source; quick rotates the element type over all 14 types by pair index, thorough repeats the whole space for each of the 14 element types plus 50000 random pairs of rank<=5, extents<=9. A pair is non-trivial when the two shapes differ (something is stretched, padded or must be rejected); distinct = distinct (helper-independent) (shapeA, shapeB, dtype) descriptors.",
+		ID:             "C14",
+		Title:          "Broadcast helpers implement ONNX multi- and unidirectional broadcasting",
+		Cases:          c14Cases,
+		Run:            c14Run,
+		Floor:          func(tier string) int { return 50000 },
+		Rule:           "bounded-exhaustive: every ordered pair of shapes of rank 0..4 with extents 1..4 (341^2 = 116281 pairs) through ops.MultidirectionalBroadcast and ops.UnidirectionalBroadcast, operands unique-valued so each output element identifies its source; quick rotates the element type over all 14 types by pair index, thorough repeats the whole space for each of the 14 element types plus 50000 random pairs of rank<=5, extents<=9. A pair is non-trivial when the two shapes differ (something is stretched, padded or must be rejected); distinct = distinct (helper-independent) (shapeA, shapeB, dtype) descriptors.",
 		Exhaustive:     func(tier string) bool { return true },
 		RaceInThorough: true,
 		Technique:      "runtime monitoring: bounded-exhaustive differential test of the real helpers against an independent index-map reference, with deep input fingerprints (sources unmodified)",
